@@ -51,6 +51,7 @@ def check(ctx):
     _pairing_cumsum(ctx, P)
     _pairing_public(ctx, P)
     _selection(ctx, P)
+    _interp_like(ctx, P)
 
 
 def _pairing_dispatch(ctx, P):
@@ -321,3 +322,48 @@ def _selection(ctx, P):
             ctx.report("R10.2", fi, name, bad)
         else:
             ctx.ok("R10.2", name, f"-> {want}")
+
+
+def _interp_like(ctx, P):
+    """R10.4: interp_like moves `array` along exactly the axes on which its position differs from `like`."""
+    fi = P.func("grid:Grid.interp_like")
+    calls = []
+
+    def m_interp(ev, args, kw, node):
+        calls.append((list(args), dict(kw)))
+        return Obj("DataArray", "INTERPOLATED")
+
+    c = lambda a: dimsym(a, "center")
+    l = lambda a: dimsym(a, "left")
+    cases = [
+        ("differs on X only", [l("AX"), c("AY")], [c("AX"), c("AY"), Sym("t")], [AX]),
+        ("differs on both", [l("AX"), l("AY")], [c("AX"), c("AY")], [AX, AY]),
+        ("same positions", [c("AX"), c("AY")], [Sym("t"), c("AX"), c("AY")], []),
+        ("axis missing from `like`", [l("AX"), c("AY")], [c("AX")], [AX]),
+    ]
+    for name, adims, ldims, want in cases:
+        calls.clear()
+        ev = Evaluator(P, models={"grid:Grid.interp": m_interp})
+        try:
+            arr, like = make_da("arr", adims), make_da("like", ldims)
+            outs = ev.run_paths(fi, lambda: dict(self=make_grid(("AX", "AY", "AZ")), array=arr, like=like, boundary=Sym("USER_BOUNDARY"), fill_value=Sym("USER_FILL")))
+        except Unmodelled as e:
+            ctx.unknown("R10.4", f"interp_like, {name}", str(e))
+            continue
+        bad = None
+        if len(calls) != 1 or any(o.kind != "return" for o in outs) or not (isinstance(outs[0].value, Obj) and outs[0].value.name == "INTERPOLATED"):
+            bad = "interp_like does not return the result of one interp call"
+        else:
+            a, kw = calls[0]
+            b = dict(zip(["self", "da", "axis"], a))
+            b.update(kw)
+            if b.get("da") is not arr:
+                bad = "the array interpolated is not `array`"
+            elif list(b.get("axis")) != want:
+                bad = f"interpolates along {b.get('axis')!r}; the positions of `array` and `like` differ on {want!r}"
+            elif b.get("boundary") != Sym("USER_BOUNDARY") or b.get("fill_value") != Sym("USER_FILL"):
+                bad = "boundary / fill_value are not forwarded to interp"
+        if bad:
+            ctx.report("R10.4", fi, f"interp_like, {name}", bad)
+        else:
+            ctx.ok("R10.4", f"interp_like, {name}", f"interp along {[a.name for a in want]}")
